@@ -45,4 +45,24 @@ example : ((seg3.linebreakBefore 1).map fun s => ((s.get 0).next, (s.get 1).prev
 example : ((seg3.addLineEnd (some 2) 64).bind fun (e, s) => (s.delLineEnd e).map fun s => ((s.get 1).next, (s.get 2).prev, s.first, s.last)) =
     some (some 2, some 1, some 0, some 2) := by decide
 
+/-! ### the two line-end slots of `Segment::justify` in front of the same slot (evaluated instances, not theorems over all streams)
+
+`Segment::justify` brackets a line with `addLineEnd(first slot)` and `addLineEnd(end)`; in a segment whose direction bit is set `end` can be
+the line's first slot, so both go in front of the same slot.  Taken out last-inserted-first (the order of the repaired `justify`, fix
+f76710b6) every link is as before; taken out first-inserted-first (the pinned tree) the slot's `prev` is the freed first sentinel - the
+defect the justification-font stage of `tools/props/c19.py` reports on the implementation. -/
+def bracketSame (s : Seg) (n : Nat) (reverseOrder : Bool) : Option Seg :=
+  (s.addLineEnd (some n) 64).bind fun (e1, s1) => (s1.addLineEnd (some n) 64).bind fun (e2, s2) =>
+    if reverseOrder then (s2.delLineEnd e2).bind fun s3 => s3.delLineEnd e1 else (s2.delLineEnd e1).bind fun s3 => s3.delLineEnd e2
+
+def seg2 : Seg :=
+  { slots := #[({} : Slot).setNext (some 1), ({} : Slot).setPrev (some 0), {}, {}],
+    first := some 0, last := some 1, free := [2, 3], numGlyphs := 2, numChars := 2 }
+
+example : ((bracketSame seg2 0 true).map fun s => ((s.get 0).prev, (s.get 0).next, (s.get 1).prev, s.first, s.last)) =
+    some (none, some 1, some 0, some 0, some 1) := by decide
+example : ((bracketSame seg2 0 false).map fun s => ((s.get 0).prev, (s.get 2).next)) = some (some 2, some 0) := by decide
+example : ((bracketSame seg3 1 true).map fun s => ((s.get 0).next, (s.get 1).prev, (s.get 1).next, (s.get 2).prev)) =
+    some (some 1, some 0, some 2, some 1) := by decide
+
 end GrVerif.Props.C19
